@@ -336,8 +336,6 @@ class LRI(dict):
         with self._lock:
             if self is other:
                 return True
-            if len(other) != len(self):
-                return False
             return super().__eq__(other)
 
     def __ne__(self, other):
